@@ -256,7 +256,19 @@ func runC03(e *emitter, idx int, c *OptCase) {
 		switch c.Entry {
 		case "minimize":
 			cost := s.Minimize()
-			if cost == -1 {
+			unsat := cost == -1
+			if unsat && c.hasNegCost() { // -1 can also be a genuine cost: Model() panics exactly when no model was found
+				func() {
+					defer func() {
+						if recover() != nil {
+							unsat = true
+						}
+					}()
+					unsat = false
+					model = s.Model()
+				}()
+			}
+			if unsat {
 				verdict, weight = 2, -1
 			} else {
 				verdict, weight = 1, cost
